@@ -730,6 +730,37 @@ func monC06(x *Ctx) {
 				x.Violate("to/collateral/set", id, fmt.Sprintf("other attributes differ from the unfaulted run: %v", d), detail())
 			}
 		}
+		// --- a target that is already filled (the result of the unfaulted call) loses the type of one of its
+		// root attributes: the value it holds is no substitute for the type (root level only: a nested object
+		// that is kept from the target legitimately brings its own attribute types)
+		{
+			roots := x.Root.Live()
+			for k := 0; k < 6 && len(roots) > 0; k++ {
+				a := roots[x.prf.Int(len(roots), in, fmt.Sprint(k), "filled-tpos")]
+				tgt := deepCopyTF(clean).(types.Object)
+				if _, ok := tgt.Attrs[a.Attr]; !ok {
+					continue
+				}
+				tgt.AttrTypes = pruneType(ot, nil, a.Attr, nil).AttrTypes
+				x.Eval(1)
+				x.Count("to-type-faults-on-filled-target", 1)
+				out := x.CopyTo(src, &tgt)
+				id := fmt.Sprintf("%s/filled%d", in, k)
+				if out.Panic != nil {
+					x.Violate(fmt.Sprintf("to/panic/type-delete-filled/%s/%s", panicClass(out.Panic), x.nilEmbedClass(src)), id, "CopyTo panicked on a filled target with a missing attribute type", map[string]interface{}{"removed": a.Path, "panic": panicDetail(out)})
+					continue
+				}
+				named := false
+				for _, e := range errorDiags(out.Diags) {
+					if strings.Contains(e, a.Path) && strings.Contains(e, "is missing") {
+						named = true
+					}
+				}
+				if !named {
+					x.Violate("to/diag-missing/filled-target/"+a.Class, id, fmt.Sprintf("no diagnostic names the missing attribute type of %s (the target already holds a value for it)", a.Path), map[string]interface{}{"removed": a.Path, "diags": errorDiags(out.Diags)})
+				}
+			}
+		}
 		// --- a whole level without attribute types (nil AttrTypes) -------------------
 		for _, k := range keys {
 			l := levels[k]
